@@ -40,7 +40,9 @@ def _free_vars(node):
 
 def fkey(I, f):
     if isinstance(f, FuncRef):
-        return f.key
+        k = "%s:%s" % (f.module, f.qualname)
+        I.__dict__.setdefault("fkeys", {})[k] = f
+        return k
     if isinstance(f, Closure):
         vals = []
         for n in _free_vars(f.node):
@@ -51,6 +53,11 @@ def fkey(I, f):
                 vals.append("%s=%s" % (n, v.t.sexpr()))
             elif isinstance(v, (str, int, bool, type(None), tuple)):
                 vals.append("%s=%r" % (n, v))
+            elif isinstance(v, (OSeq, list, dict)):
+                # captured containers are compared by structure (the reference side works on a deep copy)
+                import json
+                from .engine import describe
+                vals.append("%s~%s" % (n, json.dumps(describe(v), sort_keys=True, default=str)))
             else:
                 vals.append("%s@%d" % (n, id(v)))
         k = "%s:%d:%d{%s}" % (f.module, f.node.lineno, f.node.col_offset, ",".join(vals))
@@ -173,9 +180,12 @@ def loop_handler(I, node, it, env):
             raise Unsupported("loop invariant must return a dict")
         return r
 
-    # loop-entry values of the declared locations
-    probe = inv([], it, {})
-    entry = {}
+    # loop-entry values of the declared locations (and of the loop-invariant inputs the invariant reads)
+    reads = {}
+    for expr in spec.get("reads", ()):
+        reads[expr] = _eval_expr(I, expr, env)
+    probe = inv([], it, dict(reads))
+    entry = dict(reads)
     for expr in probe:
         try:
             entry[expr] = _eval_expr(I, expr, env)
